@@ -127,6 +127,16 @@ func c14State(w *bigbuff.Workers) string {
 	return fmt.Sprintf("count=%d target=%d queued=%d", count, target, queued)
 }
 
+// c14Wait calls Wait under a bound: once every Call has returned and nothing is queued, Wait returns.
+func c14Wait(c *core.Ctx, w *bigbuff.Workers, desc string) bool {
+	if !core.AwaitDone(core.Go(w.Wait), 10000) {
+		c.Violate("wait-blocked", "every Call has returned and nothing is queued, but Wait does not return (%s); %s", c14State(w), desc)
+		c.SetDump(core.DumpAll())
+		return false
+	}
+	return true
+}
+
 func newC14Run(c *core.Ctx, n int) *c14Run {
 	return &c14Run{c: c, w: new(bigbuff.Workers), execs: make([]atomic.Int32, n), starts: make([]atomic.Int64, n), ends: make([]atomic.Int64, n)}
 }
@@ -243,7 +253,9 @@ func c14Mixed(c *core.Ctx) {
 		close(stop)
 		return
 	}
-	r.w.Wait()
+	if !c14Wait(c, r.w, desc) {
+		return
+	}
 	close(stop)
 	<-sampled
 	if cnt := r.w.Count(); cnt != 0 {
@@ -345,7 +357,9 @@ func c14Shrink(c *core.Ctx) {
 		close(stop)
 		return
 	}
-	r.w.Wait()
+	if !c14Wait(c, r.w, desc) {
+		return
+	}
 	close(stop)
 	<-sampled
 	if cnt := r.w.Count(); cnt != 0 {
@@ -413,7 +427,11 @@ func c14Churn(c *core.Ctx) {
 				return
 			}
 		}
-		r.w.Wait()
+		if !core.AwaitDone(core.Go(r.w.Wait), 10000) {
+			c.Violate("wait-blocked", "iteration %d: every Call has returned and nothing is queued, but Wait does not return (%s)", it, c14State(r.w))
+			c.SetDump(core.DumpAll())
+			return
+		}
 		if cnt := r.w.Count(); cnt != 0 {
 			c.Violate("count-after-wait", "iteration %d: Count()=%d after Wait", it, cnt)
 		}
@@ -652,7 +670,9 @@ func c14SharedWrapper(c *core.Ctx) {
 	if int(next.Load()) != total {
 		c.Violate("execution-count", "%d invocations, %d executions; %s", total, next.Load(), desc)
 	}
-	w.Wait()
+	if !c14Wait(c, &w, desc) {
+		return
+	}
 	c.Op("call", total)
 	c.Nontrivial()
 	c.Sig("shared-wrapper", n, g, per)
